@@ -106,7 +106,7 @@ def fields(rest):
     return cls, d
 
 
-def canon_snapshot(snap):
+def canon_snapshot(snap, gran=None):
     """-> dict path -> (kind, mode, nlink, content, accessed, rank) ; rank = dense rank of mtime among files of the same directory"""
     ents = {}
     bydir = {}
@@ -117,6 +117,8 @@ def canon_snapshot(snap):
             ents[path] = ("d",)
         else:
             mode, nlink, size, mtime, atime, content = f[2], f[3], f[4], int(f[5]), int(f[6]), f[7]
+            if gran and gran > 1:
+                mtime -= mtime % gran; atime -= atime % gran
             ents[path] = ["f", mode, nlink, content, atime >= mtime, mtime]
             bydir.setdefault(os.path.dirname(path), []).append(path)
     for d, ps in bydir.items():
@@ -132,7 +134,7 @@ def canon_snapshot(snap):
     return {k: tuple(v) for k, v in ents.items()}
 
 
-def compare(lines, impl, model, what=("result", "snapshot", "trace"), ignore_paths=("systmp",), result_keys=None):
+def compare(lines, impl, model, what=("result", "snapshot", "trace"), ignore_paths=("systmp",), result_keys=None, gran=None):
     """-> list of human-readable differences (empty = agree)."""
     diffs = []
     if "result" in what:
@@ -152,7 +154,7 @@ def compare(lines, impl, model, what=("result", "snapshot", "trace"), ignore_pat
         if len(impl.snaps) != len(model.snaps):
             diffs.append("snapshot count impl=%d model=%d" % (len(impl.snaps), len(model.snaps)))
         for i, (sa, sb) in enumerate(zip(impl.snaps, model.snaps)):
-            ca, cb = canon_snapshot(sa), canon_snapshot(sb)
+            ca, cb = canon_snapshot(sa, gran), canon_snapshot(sb, gran)
             for p in sorted(set(ca) | set(cb)):
                 if any(p == ip or p.startswith(ip + "/") for ip in ignore_paths):
                     continue
@@ -176,6 +178,8 @@ def compare(lines, impl, model, what=("result", "snapshot", "trace"), ignore_pat
 
 def run_both(lines, **kw):
     cmpkw = {k: kw.pop(k) for k in list(kw) if k in ("what", "result_keys", "ignore_paths")}
+    if kw.get("gran"):
+        cmpkw["gran"] = kw["gran"]
     impl = run_impl(lines, **kw)
     aug = augment(lines, impl, gran=kw.get("gran"), noatime=kw.get("noatime", False))
     model = run_model(aug)
